@@ -249,6 +249,14 @@ fn do_reenter(act: &J) -> String {
             Err(e) => format!("{{\"err\":{}}}", q(&format!("{:?}", e))),
         },
         "exec_fresh" => res_json(&execute(text, Context::new())),
+        "exec_shared" => {
+            // a second, separate context (one of the shared ones, by id) evaluated from inside the handler
+            let c = {
+                let mut g = SHARED_CTXS.get_or_init(|| Mutex::new(HashMap::new())).lock().unwrap();
+                ctx_handle(g.entry(act.get("ctx").int()).or_insert_with(Context::new))
+            };
+            res_json(&execute(text, c))
+        }
         "exec_same" | "lock_ctx" => {
             let h = ST.with(|st| st.borrow().ctx.as_ref().map(ctx_handle));
             let h = match h {
@@ -271,7 +279,17 @@ fn do_reenter(act: &J) -> String {
         }
         "reg_fn" | "reg_prefix" | "reg_postfix" | "reg_infix" => {
             do_register(act.get("act").str(), act);
-            "\"done\"".to_string()
+            // optionally use what was just registered before the handler returns
+            if !act.get("then").is_null() {
+                res_json(&execute(act.get("then").str(), Context::new()))
+            } else if !act.get("then_parse").is_null() {
+                match parse_expression(act.get("then_parse").str()) {
+                    Ok(ast) => format!("{{\"ok\":{}}}", q(&ast.expr())),
+                    Err(e) => format!("{{\"err\":{}}}", q(&format!("{:?}", e))),
+                }
+            } else {
+                "\"done\"".to_string()
+            }
         }
         "lock_then_reg" => {
             let h = ST.with(|st| st.borrow().ctx.as_ref().map(ctx_handle));
